@@ -422,9 +422,16 @@ func ParamV(name string) VPat {
 			return x.Name() == name
 		case *ssa.FreeVar:
 			return x.Name() == name
-		case *ssa.UnOp: // captured variable load
+		case *ssa.UnOp: // captured variable load / parameter spilled to a cell because a closure captures it
 			if fv, ok := x.X.(*ssa.FreeVar); ok {
 				return fv.Name() == name
+			}
+			if a, ok := x.X.(*ssa.Alloc); ok && a.Comment == name {
+				for _, prm := range a.Parent().Params {
+					if prm.Name() == name {
+						return true
+					}
+				}
 			}
 		}
 		return false
@@ -519,4 +526,17 @@ func ConstBoolArg(idx int, want bool, what string) func(ci ssa.CallInstruction) 
 		}
 		return ""
 	}
+}
+
+// PathV matches a value whose access path (source-like rendering) contains every given substring.
+func PathV(subs ...string) VPat {
+	return VPat{"value ~ " + strings.Join(subs, "…"), func(v ssa.Value) bool {
+		p := AccessPath(v, 0)
+		for _, s := range subs {
+			if !strings.Contains(p, s) {
+				return false
+			}
+		}
+		return true
+	}}
 }
